@@ -1,6 +1,6 @@
 (* C15: per-block price band.  Statements only. *)
 From MP.Model Require Import Prelude U128 SInt Feed Vamm VammOps Token World Engine Runtime.
-From MP.Proofs Require Import Tactics SIntFacts VammFacts SwapFacts.
+From MP.Proofs Require Import Tactics SIntFacts VammFacts SwapFacts MoreFacts.
 
 (* with a non-zero limit, a trade that may not go over the limit (every opening / increasing /
    reducing swap_input of OpenPosition) is accepted only if the price before it and the price after
@@ -27,3 +27,60 @@ Theorem C15_already_outside_rejected : forall v e d qa ba cgo upper lower cur,
   check_fluctuation v e d qa ba cgo = Err EGuard.
 Proof. exact check_fluctuation_already_out. Qed.
 Print Assumptions C15_already_outside_rejected.
+
+(* a swap_input that may not go over the limit - accepted on a vAMM with a non-zero limit - starts inside
+   the band around the previous block's reference price and leaves the spot price of the state it stores
+   inside that same band *)
+Theorem C15_swap_input_ends_in_band : forall v e s d quote lim v' qa ba,
+  wfv v -> 0 <= quote -> v_fluct (vc v) <> 0 ->
+  swap_input v e s d quote lim false = Ok (v', (qa, ba)) ->
+  exists upper lower cur post,
+    price_boundaries v e = Ok (upper, lower) /\
+    spot_of (v_dec (vc v)) (v_q (vs v)) (v_b (vs v)) = Ok cur /\ in_band cur upper lower /\
+    spot_of (v_dec (vc v')) (v_q (vs v')) (v_b (vs v')) = Ok post /\ in_band post upper lower.
+Proof. exact swap_input_in_band. Qed.
+Print Assumptions C15_swap_input_ends_in_band.
+
+(* the swaps of an OpenPosition: one swap_input with can_go_over = false (new / increase / reduce), or - a
+   reversal - the swap_output of the whole old position, whose reply re-opens through a swap_input that
+   again may not go over the limit *)
+Theorem C15_open_swaps : forall w t v s m l lim f w' subs,
+  e_open_position w t v s m l lim f = Ok (w', subs) ->
+  exists msg, subs = [msg] /\
+    ((exists q id, sm_msg msg = MSwapInput v (side_to_direction s) q lim false /\ sm_id msg = id /\ (id = INCREASE_ID \/ id = DECREASE_ID)) \/
+     (exists d b, sm_msg msg = MSwapOutput v d b 0 /\ sm_id msg = REVERSE_ID)).
+Proof. exact open_position_swaps. Qed.
+Print Assumptions C15_open_swaps.
+Theorem C15_reopen_leg_cannot_go_over : forall v s n l,
+  sm_msg (internal_increase_position v s n l) = MSwapInput v (side_to_direction s) n l false.
+Proof. exact reopen_leg_cannot_go_over. Qed.
+Print Assumptions C15_reopen_leg_cannot_go_over.
+
+(* the vAMM's answer to IsOverFluctuationLimit: the price after swapping the base amount out, compared
+   with the band around the previous block's reference price *)
+Theorem C15_over_limit_meaning : forall v e d base r,
+  v_fluct (vc v) <> 0 -> q_is_over_fluctuation_limit v e d base = Ok r ->
+  exists upper lower quote price,
+    price_boundaries v e = Ok (upper, lower) /\ q_output_amount v d base = Ok quote /\
+    (match d with
+     | RemoveFromAmm => spot_of (v_dec (vc v)) (v_q (vs v) + quote) (v_b (vs v) - base)
+     | AddToAmm => spot_of (v_dec (vc v)) (v_q (vs v) - quote) (v_b (vs v) + base)
+     end) = Ok price /\
+    r = out_of_band price upper lower.
+Proof. exact over_limit_spec. Qed.
+Print Assumptions C15_over_limit_meaning.
+
+(* ClosePosition swaps the whole position out unless that would leave the price outside the band and the
+   partial ratio is below 100%; then it swaps out exactly floor(|size| x ratio / D) base *)
+Theorem C15_close_whole_or_exact_fraction : forall w t v lim w' subs,
+  e_close_position w t v lim = Ok (w', subs) ->
+  let p := read_position (w_eng w) v t in
+  let c := ec (w_eng w) in
+  let dir := if sgtb (p_size p) szero then AddToAmm else RemoveFromAmm in
+  exists vm over, get_vamm w v = Ok vm /\ q_is_over_fluctuation_limit vm (w_env w) dir (sval (p_size p)) = Ok over /\
+    sval (p_size p) <> 0 /\
+    (if over && (e_plr c <? e_dec c)
+     then subs = [swap_output_msg v (direction_to_side (p_dir p)) (sval (p_size p) * e_plr c / e_dec c) 0 PARTIAL_CLOSE_ID]
+     else subs = [swap_output_msg v (direction_to_side (p_dir p)) (sval (p_size p)) lim CLOSE_ID]).
+Proof. exact close_position_choice. Qed.
+Print Assumptions C15_close_whole_or_exact_fraction.
